@@ -2,10 +2,10 @@
    Object: the loader models (Meta/Meta.v), tied to the Go code by the correspondence stream
    meta_load; specification: byte-level builders of well-formed files (validated on every run
    against the stdlib / x-image DecodeConfig by the harness).  WebP is proved here for all three
-   bitstream kinds and PNG for every IHDR, any ancillary chunks and any continuation; the JPEG round
-   trip: see DESIGN.md (status). *)
+   bitstream kinds, PNG for every IHDR, any ancillary chunks and any continuation, and JPEG for any
+   segments around a baseline or progressive frame header. *)
 From Coq Require Import List NArith. From Coq Require Import Strings.Byte.
-From PrismV Require Import IO.IO IO.IOTheory IO.Parse IO.IOTheory2 Meta.Meta Meta.MetaProofs Meta.WebpProofs Meta.PngProofs IO.Encode.
+From PrismV Require Import IO.IO IO.IOTheory IO.Parse IO.IOTheory2 Meta.Meta Meta.MetaProofs Meta.WebpProofs Meta.PngProofs Meta.JpegProofs IO.Encode.
 Import ListNotations.
 
 Theorem C05_webp_lossy : forall inflate total len t0 t1 t2 w sx h sy rest fuel,
@@ -40,6 +40,18 @@ Theorem C05_png : forall inflate w h depth rest crc ancs endlen endty body fuel,
   = (Ok {| md_format := PNG; md_w := w; md_h := h; md_bits := bN depth; md_icc := IccNone |}, body).
 Proof. exact png_meta. Qed.
 Print Assumptions C05_png.
+
+(* JPEG: SOI, any length-carrying segments other than SOF0/SOF2/APP2, a baseline (C0) or progressive
+   (C2) frame header with at least the five data bytes the loader reads, any further such segments,
+   then SOS: width, height and precision are the frame header's, and the loader stops after SOS *)
+Theorem C05_jpeg : forall inflate pre post t p h1 h2 w1 w2 more sos body fuel,
+  let items := jpeg_plain_items pre post t p h1 h2 w1 w2 more in
+  Forall passive pre -> Forall passive post -> (t = 0xc0 \/ t = 0xc2)%N ->
+  Forall item_ok items -> seg_ok 0xda sos -> length items < fuel ->
+  run_pure inflate (jpeg_prog fuel) (jpeg_file items sos body)
+  = (Ok {| md_format := JPEG; md_w := bN w1 * 256 + bN w2; md_h := bN h1 * 256 + bN h2; md_bits := bN p; md_icc := IccNone |}, body).
+Proof. exact jpeg_meta. Qed.
+Print Assumptions C05_jpeg.
 
 (* the same through Load under every delivery schedule, and through the auto-detecting loader *)
 Theorem C05_through_load_any_schedule : forall inflate (p : nat -> prog (res mdata)) fuel r,
